@@ -60,20 +60,20 @@ type kmKey struct {
 }
 
 func runC06(w *mon.Worker) {
-	for i := 0; i < w.Share(w.Scale(2400, 80000)); i++ {
+	for i := 0; i < w.Share(w.Scale(8000, 200000)); i++ {
 		refc := i%3 == 0
 		w.Case("model-nodelay", map[string]any{"refcount": refc}, func(c *mon.Case) { c06ModelCase(c, refc, false) })
 	}
-	for i := 0; i < w.Share(w.Scale(160, 5000)); i++ {
+	for i := 0; i < w.Share(w.Scale(320, 8000)); i++ {
 		refc := i%2 == 0
 		w.Case("model-delay", map[string]any{"refcount": refc}, func(c *mon.Case) { c06ModelCase(c, refc, true) })
 	}
-	for i := 0; i < w.Share(w.Scale(96, 3000)); i++ {
+	for i := 0; i < w.Share(w.Scale(192, 5000)); i++ {
 		w.Case("gated-removal-timer", nil, c06GatedTimerCase)
 	}
 	mon.SetMaxSleep(80 * time.Microsecond)
 	mon.SetProb(0.25, verifhook.KeyedLock)
-	for i := 0; i < w.Share(w.Scale(320, 10000)); i++ {
+	for i := 0; i < w.Share(w.Scale(1600, 40000)); i++ {
 		w.Case("concurrent-refs", nil, c06ConcurrentRefCase)
 	}
 	mon.ClearProb()
